@@ -35,6 +35,10 @@ CHECKS = {
          "the neighbour is an active peer (the DUT dials through the overlay's Dial seam) and also connects in; OPEN/KEEPALIVE deliveries on both connections are ordered by the plan (clean collision, racy delays, late second connection) for identifier orderings incl. equal identifiers with different AS; never two Established or two contributing FSMs, exactly one session afterwards, the loser closed with Cease, and in the clean collision the survivor is the connection initiated by the speaker with the higher identifier (RFC 4271 6.8 / RFC 6286)"),
  "C25": ("bgpsim + ribsim", "5/C25", "deterministic simulation with a seeded scheduler at every lock acquisition; waits-for cycle detection and bounded liveness in simulated time",
          "route updates from live sessions, policy replacements, DisposePeer, Metrics, RIB dumps, static routes (bgpsim) and bare table operations, client (un)registration, refresh, export policy replacement and Loc-RIB disposal (ribsim) are released together and interleaved by the seeded gate scheduler at every simulator-mutex acquisition; a waits-for cycle in the logical lock table or an operation / goroutine still blocked after 600 simulated seconds of quiescence is a violation; afterwards the tables must still serve a fresh operation"),
+ "C27": ("bmpsim", "5/C27", "deterministic simulation with fault injection: hostile and damaged BMP byte streams over the simulated connection, fragmentation and connection loss at seeded points",
+         "a scripted monitored router sends well-formed conversations with injected damage (length fields below the header / huge / beyond the data, truncated bodies, statistics counts and TLV lengths beyond the message, empty reason TLVs, peer-up OPENs that are rejected, bit flips, noise, damaged UPDATEs), delivered in seeded fragments, ended by close at any point; the receiver's real message loop must not crash, must not allocate more than 1 MiB + 256 x bytes received, and must return after the connection ends"),
+ "C28": ("bmpsim", "5/C28", "deterministic simulation: well-formed BMP histories against a model of the up peers' routes per VRF, with session end by peer-down, termination and connection loss",
+         "initiation, peer-up (4/2-octet AS, add-path), route monitoring (pre/post policy, ignore-pre / ignore-post / ignored-ASN configurations, multi-NLRI, withdrawals, fragmentation), statistics, peer-down, termination, connection loss and reconnects over 2-4 peers in up to 3 VRFs; after every message each per-VRF table must equal the model (announced and not withdrawn by up peers), recording observers registered on the tables must hold exactly the tables' content, and after a session end no route, neighbour or observer-held path may remain and the message loop must have returned"),
  "C29": ("ribsim", "5/C29", "deterministic simulation runtime: source histories against a route -> advertiser-set model, concurrent sources under the gate scheduler",
          "2-4 sources call MergedLocRIB's client interface (the gRPC stream is stubbed): advertisements including repeated ones, withdrawals and source drops, sequentially and concurrently (one caller per source, interleaved at lock boundaries); the underlying Loc-RIB must contain a route iff the model's advertiser set is non-empty"),
  "C05": ("bgpsim", "5/C05", "deterministic simulation: stage-wise reference import model over seeded histories with session flaps",
